@@ -180,6 +180,15 @@ func (p *mucPresence) HasStatus(code int) bool {
 // it is used by the multiplexer and normally does not need to be called by the
 // user.
 func (c *Client) HandlePresence(p stanza.Presence, r xmlstream.TokenReadEncoder) error {
+	notify, err := c.handlePresence(p, r)
+	if notify != nil {
+		// The callback runs without the lock so that it may use the channels.
+		notify()
+	}
+	return err
+}
+
+func (c *Client) handlePresence(p stanza.Presence, r xmlstream.TokenReadEncoder) (notify func(), err error) {
 	// If this is a self-presence, check if we're joining or departing and send on
 	// the channel.
 	c.managedM.Lock()
@@ -188,13 +197,13 @@ func (c *Client) HandlePresence(p stanza.Presence, r xmlstream.TokenReadEncoder)
 	channel, ok := c.managed[key]
 	// TODO: what do we do with presences that aren't managed?
 	if !ok {
-		return nil
+		return nil, nil
 	}
 	d := xml.NewTokenDecoder(r)
 	var decodedPresence mucPresence
-	err := d.Decode(&decodedPresence)
+	err = d.Decode(&decodedPresence)
 	if err != nil {
-		return err
+		return nil, err
 	}
 
 	switch p.Type {
@@ -203,12 +212,31 @@ func (c *Client) HandlePresence(p stanza.Presence, r xmlstream.TokenReadEncoder)
 		// them.
 	selectJoin:
 		select {
-		case c := <-channel.join:
+		case jc := <-channel.join:
+			if jc.key != key {
+				// A join under another nickname is pending and this is a presence of
+				// the nickname we still hold: leave the request where it was.
+				select {
+				case channel.join <- jc:
+				default:
+				}
+				break
+			}
 			select {
-			case c.j <- p.From:
+			case jc.j <- p.From:
+				// The room confirmed the occupant JID: it is the one we hold from now
+				// on, the previous nickname (if any) is gone.
+				if old := channel.addr.String(); old != key && c.managed[old] == channel {
+					delete(c.managed, old)
+				}
+				channel.addr = p.From
 				channel.joined = true
-				return nil
-			case <-c.done:
+				select {
+				case <-channel.depart:
+				default:
+				}
+				return nil, nil
+			case <-jc.done:
 				// If the call to Join has timed out, try again to see if we have a
 				// subsequent call to Join (and if not, send the call to the user
 				// presence handler for the user to take care of).
@@ -216,18 +244,22 @@ func (c *Client) HandlePresence(p stanza.Presence, r xmlstream.TokenReadEncoder)
 			}
 		default:
 		}
-		if decodedPresence.X.XMLName.Space == NSUser && c.HandleUserPresence != nil {
-			c.HandleUserPresence(decodedPresence.Presence, decodedPresence.X.Item)
+		if f := c.HandleUserPresence; decodedPresence.X.XMLName.Space == NSUser && f != nil {
+			notify = func() { f(decodedPresence.Presence, decodedPresence.X.Item) }
 		}
 	case stanza.UnavailablePresence:
 		delete(c.managed, key)
-		channel.joined = false
-		select {
-		case channel.depart <- struct{}{}:
-		default:
+		// Only the occupant JID we hold ends the membership; losing the one a
+		// pending join asked for merely means that join can no longer succeed.
+		if channel.addr.String() == key {
+			channel.joined = false
+			select {
+			case channel.depart <- struct{}{}:
+			default:
+			}
 		}
 	}
-	return nil
+	return notify, nil
 }
 
 // Join a MUC on the provided session.
